@@ -140,6 +140,17 @@ def c09_g2(ctx):
                 exprs.append((t["span"]["line"], eb.call(b, t)))
         for line, e in exprs:
             for x in walk(e):
+                # a whole range compared with a pair built from a constant start: `held[0] == (0, size)`
+                if x[0] == "call" and (callee_name(x) or "").split("::")[-1] in ("eq", "ne") and len(x[3]) == 2:
+                    sides = [a for a in x[3]]
+                    def _peel(a):
+                        while a[0] == "ref":
+                            a = a[2]
+                        return a
+                    pa, pb = _peel(sides[0]), _peel(sides[1])
+                    for el, tup in ((pa, pb), (pb, pa)):
+                        if tup[0] == "agg" and tup[1] == "tuple" and len(tup[5]) == 2 and tup[5][0][0] == "const" and re.search(r"(\]|\*|index\(.*\)|first\(.*\))", expr_str(el)):
+                            reads_start.append((line, expr_str(x)[:160]))
                 if x[0] in ("binop",) and x[1] in ("Eq", "Ne", "Lt", "Le", "Gt", "Ge"):
                     for side in (x[2], x[3]):
                         for y in walk(side):
@@ -1004,6 +1015,26 @@ def c09_g7(ctx):
             continue
         n += 1
         key = "Segments::gaps:push(_, %s)" % z
+        # the held ranges the loop sees were cut off by `take_while(|(s, _)| *s < end)`
+        zf = expr_str(simp(ExprBuilder(ctx.prog, f).call(b, t))[3][1][5][1]) if True else ""
+        mi = re.match(r"^\(Iterator>::next\((?:&mut )?(\w+)\)\)@Some\.0(\.\*)?\.0$", zf)
+        if mi:
+            okw = False
+            for dx in ExprBuilder(ctx.prog, f).var_defs(mi.group(1)):
+                for y in walk(dx):
+                    if y[0] == "call" and (callee_name(y) or "").split("::")[-1] == "take_while" and len(y[3]) == 2:
+                        clo = [c_ for c_ in walk(y[3][1]) if c_[0] == "agg" and c_[1] == "closure"]
+                        cf = ctx.prog.by_norm.get(clo[0][2]) if clo else None
+                        if cf is not None:
+                            ebc = ExprBuilder(ctx.prog, cf)
+                            rets_ = [expr_str(ebc._def_expr(d_, 0, (0,))) for d_ in cf.defs(0) if d_[0] in ("assign", "call")]
+                            caps = [c_ for c_ in clo[0][5]]
+                            cap_is_end = any(expr_str(simp(c_)) == p_end for c_ in caps)
+                            if rets_ and cap_is_end and all(re.match(r"^Lt\(_2(\.\*)*\.0(\.\*)?, \w+\)$", r_) for r_ in rets_):
+                                okw = True
+            if okw:
+                yield ok("C09-G7", key, at(f, t["span"]["line"]), "the ranges iterated are cut off at the first start >= window end (take_while)")
+                continue
         worlds = fl.at_term(b)
         zs = {z, z + ".*", z.replace(".*", "")}
 
